@@ -254,6 +254,18 @@ class Evaluator:
                 raise Unknown("unpacking arity")
             for t, v in zip(target.elts, vals):
                 self.bind(t, v, env)
+        elif isinstance(target, ast.Subscript) and isinstance(target.value, ast.Name) and isinstance(env.get(target.value.id), (list, dict)):
+            # element / slice store into a container that the fragment itself created
+            recv = env[target.value.id]
+            if isinstance(target.slice, ast.Slice):
+                k = slice(*(None if x is None else self.ev(x, env) for x in (target.slice.lower, target.slice.upper, target.slice.step)))
+                value = list(value)
+            else:
+                k = self.ev(target.slice, env)
+            try:
+                recv[k] = value
+            except Exception as e:
+                raise Unknown(f"store {ast.unparse(target)[:60]}: {e}")
         else:
             raise Unknown("binding target")
 
@@ -383,7 +395,36 @@ class Evaluator:
                     raise Unknown("keyword arguments in a container mutation")
                 getattr(recv, st.value.func.attr)(*args)
                 continue
+            if isinstance(st, ast.For) and not st.orelse:
+                it = self.ev(st.iter, env)
+                if not isinstance(it, (list, tuple, range, str, dict, set, frozenset)) and not hasattr(it, "__next__"):
+                    raise Unknown("loop over an untracked iterable")
+                n_iter = 0
+                for item in list(it):
+                    n_iter += 1
+                    if n_iter > 10_000:
+                        raise Unknown("loop budget exceeded")
+                    self.bind(st.target, item, env)
+                    try:
+                        self._exec(st.body, env)
+                    except Evaluator._Continue:
+                        continue
+                    except Evaluator._Break:
+                        break
+                continue
+            if isinstance(st, ast.Continue):
+                raise Evaluator._Continue()
+            if isinstance(st, ast.Break):
+                raise Evaluator._Break()
+            if isinstance(st, ast.Assert):
+                continue
             raise Unknown(f"statement kind {type(st).__name__} outside the fragment")
+
+    class _Continue(Exception):
+        pass
+
+    class _Break(Exception):
+        pass
 
 
 def safe(f):
